@@ -15,8 +15,11 @@ the result does not depend on the hint at all (`hint_fill_hint_irrelevant`,
 `propagated_substate_hint_irrelevant`); outside it the code panics (empty slot, op without the variable,
 hint beyond the array) or silently leaves entries unfilled (fewer hints than variables) — `example`s below.
 
+Also here: the HEAP branch of `mutate_subsection_ops` under a sub-variable cursor (RVB's form;
+QmcProofs/FastOpsSubOps.lean): `sub_ops_heap_refines`, and RVB's whole sequence `hint_fill_then_sub_ops`.
+
 All theorems are unbounded (any cutoff, any number of variables, any op contents, any hint inside the
-contract, any callback for the iterators).
+contract, any callback for the iterators / the sweep).
 -/
 import QmcProofs.FastOpsHintIter
 import QmcProofs.FastOpsSubOps
